@@ -102,6 +102,11 @@ def run(ctx):
         neg = rng.random() < .12
         if neg:
             sm[rng.choice(["BPMS", "STOPS"])] = "0.000=120.000,4.000=-%s" % rng.choice(["1", "0.5", "200"])
+        malformed = (not neg) and rng.random() < .08
+        if malformed:
+            # outside the property's domain (timing strings that do not parse); compared with the model only: both must refuse
+            sm[rng.choice(["BPMS", "STOPS"])] = rng.choice(["0.000=abc", "0.000=120.000,4.000=1x", "0.000=", "0.000=1e", "x=1", "0.000", "0=1=2", "0.000=12 0"])
+            res.count("malformed_timing_probe")
         st, ct = templates(rng)
         snap = (any_dump(sm), None if st is None else any_dump(st), chart_dump(ct))
         case = {"source": snap[0] if len(str(snap[0])) < 2500 else {"props": snap[0]["props"][:30], "charts": len(snap[0]["charts"])},
@@ -116,6 +121,12 @@ def run(ctx):
         if neg:
             if got != {"err": "NotImplementedError"}:
                 res.violation(case, "negative BPM/stop not refused with NotImplementedError", impl=str(got)[:300])
+            continue
+        if malformed:
+            # CPython raises ValueError (wrong number of '=') or decimal.InvalidOperation (bad number); the model has one class for both
+            if got.get("err") in ("InvalidOperation", "other:InvalidOperation", "ValueError"): got = {"err": "ValueError"}
+            reqs.append({"op": "convert.convert", "src": snap[0], "to_ssc": True, "sim_template": snap[1], "chart_template": snap[2], "beh": []})
+            metas.append((dict(case, malformed=True), got))
             continue
         reqs.append({"op": "convert.convert", "src": snap[0], "to_ssc": True, "sim_template": snap[1], "chart_template": snap[2], "beh": []})
         metas.append((case, got))
